@@ -98,7 +98,7 @@ KEEP = {"reset", "alloc_clear", "alloc_step", "alloc_peek", "req", "inner", "ret
 def galloc_traces(tier, seed):
     V.build_harness()
     path = os.path.join(V.WORK, "C09.galloc.ndjson")
-    runs = 10 if tier == "quick" else 120
+    runs = 10 if tier == "quick" else 400
     with open(path, "w") as f:
         for i in range(runs):
             p = subprocess.run([GALLOC, str(seed * 100 + i + 1), str(1 + i % 6), str(20 + 15 * (i % 5))],
